@@ -4,6 +4,7 @@ completed operation is durable; the operation in flight is not applied, or (file
 as a prefix.  See DESIGN.md 3.4.
 """
 import posixpath
+import sys
 import types
 
 from sortedcontainers import SortedDict
@@ -219,85 +220,119 @@ def _next_prefix(p):
     return None
 
 
-def make_simdb_class(world, Storage):
-    """SimDB looks its simulator and store up through `world` at call time so that one class
-    object serves every incarnation."""
+class FakePlyvelError(Exception):
+    """plyvel.Error"""
 
-    class _Batch:
-        def __init__(self, db):
-            self.db, self.ops = db, []
+
+def make_fake_plyvel(world):
+    """A module object with the part of plyvel's interface that electrumx.server.storage.LevelDB uses,
+    backed by the simulated store.  The real `LevelDB(Storage)` class of the working tree runs on top
+    of it (engine selection, `is_new`, the partial() that fixes transaction=True / sync=True are all
+    ElectrumX code).  Semantics mirror plyvel 1.5.1 (selftest/simdb_vs_plyvel compares them with the real
+    engine): iterators read the snapshot taken when they are created; a write batch is applied atomically
+    when `write()` runs or its `with` block is left - also when the block raised, unless the batch was
+    created with transaction=True, in which case it is discarded; `get` of a missing key gives None.
+    The store and the simulator are looked up through `world` at call time so one module object serves
+    every incarnation."""
+
+    class WriteBatch:
+        def __init__(self, db, transaction=False, sync=False):
+            self.db, self.ops, self.transaction = db, [], transaction
 
         def __enter__(self):
             return self
 
         def put(self, k, v):
+            world.sim.alloc_point('batch.put', (self.db.name, self))
             self.ops.append((bytes(k), bytes(v)))
 
         def delete(self, k):
+            world.sim.alloc_point('batch.delete', (self.db.name, self))
             self.ops.append((bytes(k), None))
 
-        def __exit__(self, et, ev, tb):
-            if et is not None:
-                return False
+        def clear(self):
+            self.ops = []
+
+        def write(self):
             sim = world.sim
             sim.seam('db.commit')
             sim.stats['db.commit'] += 1
+            sim.commit_batch = self
             sim.durable_op('commit', (self.db.name, len(self.ops)))
-            d = self.db.d
+            d = self.db._dict()
             for k, v in self.ops:
                 if v is None:
                     d.pop(k, None)
                 else:
                     d[k] = v
+
+        def __exit__(self, et, ev, tb):
+            if self.transaction and et is not None:
+                # exception inside a transaction: the batch is discarded
+                self.clear()
+                return False
+            if et is not None:
+                world.sim.probes['batch_written_despite_exception'] += 1
+            self.write()
+            self.clear()
             return False
 
-    class SimDB(Storage):
-        @classmethod
-        def import_module(cls):
-            pass
-
-        def __init__(self, name, for_sync):
-            store = world.store
-            self.is_new = name not in store.dbs
-            self.for_sync = for_sync or self.is_new
-            self.open(name, create=self.is_new)
-
-        def open(self, name, create):
+    class DB:
+        def __init__(self, name, create_if_missing=False, error_if_exists=False, max_open_files=None, **_kw):
             store = world.store
             world.sim.seam('db.open')
-            if create:
+            if name not in store.dbs:
+                if not create_if_missing:
+                    raise FakePlyvelError(f'Invalid argument: {name}: does not exist (create_if_missing is false)')
                 world.sim.durable_op('dbcreate', name)
                 store.dbs[name] = SortedDict()
+            elif error_if_exists:
+                raise FakePlyvelError(f'Invalid argument: {name}: exists (error_if_exists is true)')
             self.d = store.dbs[name]
             self.name = name
+            self.closed = False
+
+        def _dict(self):
+            if self.closed:
+                raise RuntimeError('Database is closed')
+            return self.d
 
         def close(self):
-            self.d = None
+            self.closed = True
 
-        def get(self, key):
+        def get(self, key, default=None, **_kw):
             sim = world.sim
             sim.seam('db.get')
             if key[:1] == b'u':
                 w = getattr(sim.current, 'w', None)
                 if w is not None and w.tag.endswith('advance_block'):
                     sim.probes['spend_from_db'] += 1
-            v = self.d.get(bytes(key))
+            v = self._dict().get(bytes(key), default)
             sim.seam('db.get.done')
             return v
 
-        def put(self, key, value):
+        def put(self, key, value, **_kw):
             sim = world.sim
             sim.seam('db.put')
             sim.durable_op('put', (self.name, bytes(key)))
-            self.d[bytes(key)] = bytes(value)
+            self._dict()[bytes(key)] = bytes(value)
 
-        def write_batch(self):
-            return _Batch(self)
+        def delete(self, key, **_kw):
+            sim = world.sim
+            sim.seam('db.put')
+            sim.durable_op('put', (self.name, bytes(key)))
+            self._dict().pop(bytes(key), None)
 
-        def iterator(self, prefix=b'', reverse=False, include_value=True):
+        def write_batch(self, transaction=False, sync=False):
+            return WriteBatch(self, transaction, sync)
+
+        def iterator(self, reverse=False, prefix=None, include_key=True, include_value=True, **kw):
+            if kw:
+                raise HarnessError(f'plyvel iterator arguments {sorted(kw)} are not simulated')
             # LevelDB iterators read an implicit snapshot taken at creation
             world.sim.seam('db.iter')
-            d = self.d
+            d = self._dict()
+            prefix = bytes(prefix or b'')
             if prefix:
                 hi = _next_prefix(prefix)
                 if hi is None:
@@ -315,11 +350,19 @@ def make_simdb_class(world, Storage):
                     keys = []
             if len(keys) > 1 and prefix[:1] == b'h' and len(prefix) == 9:
                 world.sim.probes['prefix_collision'] += 1
-            if include_value:
+            if include_key and include_value:
                 return iter([(k, d[k]) for k in keys])
+            if include_value:
+                return iter([d[k] for k in keys])
             return iter(keys)
 
-    return SimDB
+    mod = types.ModuleType('plyvel')
+    mod.DB = DB
+    mod.Error = FakePlyvelError
+    mod.WriteBatch = WriteBatch
+    mod.__version__ = 'simulated (interface of 1.5.1)'
+    mod._world = world
+    return mod
 
 
 class TimeShim:
@@ -369,6 +412,11 @@ def install_storage(world):
     if not _REAL:
         _REAL.update(open_file=util.open_file, open_truncate=util.open_truncate, os=dbmod.os)
     if getattr(world, 'real_storage', None):
+        if getattr(sys.modules.get('plyvel'), '_world', None) is not None:
+            if _REAL.get('plyvel') is not None:
+                sys.modules['plyvel'] = _REAL['plyvel']
+            else:
+                del sys.modules['plyvel']
         util.open_file, util.open_truncate = _REAL['open_file'], _REAL['open_truncate']
         bpmod.open_file, dmod.open_truncate = _REAL['open_file'], _REAL['open_truncate']
         dbmod.os = bpmod.os = storage.os = sessmod.os = _REAL['os']
@@ -398,11 +446,16 @@ def install_storage(world):
     bpmod.os = shim
     storage.os = shim
     sessmod.os = shim
-    if not hasattr(storage, 'SimDB') or getattr(storage.SimDB, '_world', None) is not world:
-        cls = make_simdb_class(world, storage.Storage)
-        cls._world = world
-        # util.subclasses() finds engines through the module namespace
-        storage.SimDB = cls
+    # the real LevelDB class of electrumx.server.storage runs on a simulated plyvel module
+    # (LevelDB.import_module does `import plyvel`); a database "exists" when the store has it
+    shim.path.exists = lambda p: fs.exists(p) or p in world.store.dbs
+    if 'plyvel' not in _REAL:
+        _REAL['plyvel'] = sys.modules.get('plyvel')
+    cur = sys.modules.get('plyvel')
+    if getattr(cur, '_world', None) is not world:
+        sys.modules['plyvel'] = make_fake_plyvel(world)
+    if hasattr(storage, 'SimDB'):
+        del storage.SimDB
     tshim = TimeShim(world)
     for m in (dmod, dbmod, hmod, mpmod, peersmod, sessmod, sbmod, textmod, arsess):
         m.time = tshim
